@@ -9,7 +9,7 @@ Support functions.
 """
 import sys
 from argparse import ArgumentParser, Namespace
-from typing import Callable, List, Optional, Tuple, Type, Union
+from typing import Any, Callable, List, Optional, Tuple, Type, Union
 
 from .core import (
     BaseField,
@@ -168,7 +168,15 @@ def validator(field: BaseField) -> Callable:
 
     def inner(func: Union[ConfigValidator, FieldValidator]) -> Callable:
         if isinstance(field, Field):
-            field.validator = func  # type: ignore
+            previous = field.validator
+            if previous is None:
+                field.validator = func  # type: ignore
+            else:
+                # a field holds one validator: run the ones registered so far, then this one
+                def chained(cfg: Config, value: Any) -> Any:
+                    return func(cfg, previous(cfg, value))  # type: ignore
+
+                field.validator = chained
         elif isinstance(field, Schema):
             field._validators.append(func)  # type: ignore
 
